@@ -3,6 +3,7 @@ package main
 import (
 	"bytes"
 	"fmt"
+	"math/big"
 	"net"
 	"sync"
 	"time"
@@ -46,6 +47,38 @@ func runC08(c *Ctx) {
 		return gmtls.Certificate{Certificate: [][]byte{der}, PrivateKey: k}
 	}
 	kuS, kuE := gx509.KeyUsageDigitalSignature, gx509.KeyUsageKeyEncipherment|gx509.KeyUsageDataEncipherment
+	// the same kinds of certificate in a second profile: no extended-key-usage extension at all (what many CAs issue);
+	// whether a certificate is refused must not depend on such incidental attributes of the fixture
+	issuePlain := func(cn string, serial int64, ku gx509.KeyUsage, dns []string, nb, na time.Time, k *sm2.PrivateKey) gmtls.Certificate {
+		_, der, e := issueSM2(certSpec{cn: cn, serial: serial, dns: dns, keyUsage: ku, notBefore: nb, notAfter: na}, &k.PublicKey, pki.root, pki.rootKey, r)
+		if e != nil {
+			return gmtls.Certificate{}
+		}
+		return gmtls.Certificate{Certificate: [][]byte{der}, PrivateKey: k}
+	}
+	plainSig := issuePlain("server sign", 201, kuS, []string{tlsServerName}, time.Time{}, time.Time{}, newSM2Key(r))
+	plainEnc := issuePlain("server enc", 202, kuE, []string{tlsServerName}, time.Time{}, time.Time{}, newSM2Key(r))
+	plainExpSig := issuePlain("server sign", 203, kuS, []string{tlsServerName}, fixedNow.Add(-48*time.Hour), fixedNow.Add(-24*time.Hour), newSM2Key(r))
+	plainExpEnc := issuePlain("server enc", 204, kuE, []string{tlsServerName}, fixedNow.Add(-48*time.Hour), fixedNow.Add(-24*time.Hour), newSM2Key(r))
+	plainFutEnc := issuePlain("server enc", 205, kuE, []string{tlsServerName}, fixedNow.Add(24*time.Hour), fixedNow.Add(48*time.Hour), newSM2Key(r))
+	plainNameEnc := issuePlain("server enc", 206, kuE, []string{"other.example"}, time.Time{}, time.Time{}, newSM2Key(r))
+	plainNameSig := issuePlain("server sign", 207, kuS, []string{"other.example"}, time.Time{}, time.Time{}, newSM2Key(r))
+	plainCliSig := issuePlain("client sign", 208, kuS, nil, time.Time{}, time.Time{}, newSM2Key(r))
+	plainCliEnc := issuePlain("client enc", 209, kuE, nil, time.Time{}, time.Time{}, newSM2Key(r))
+	plainExpCli := issuePlain("client sign", 210, kuS, nil, fixedNow.Add(-48*time.Hour), fixedNow.Add(-24*time.Hour), newSM2Key(r))
+	// forged look-alikes of a victim's certificate: same subject and issuer NAMES as the victim's, the forger's key,
+	// signed by the forger (so not by the CA the issuer field names), with a signing key usage
+	forgeLike := func(victim *gx509.Certificate, serial int64) ([]byte, *sm2.PrivateKey) {
+		k := newSM2Key(r)
+		t := &gx509.Certificate{SerialNumber: big.NewInt(serial), Subject: victim.Subject, NotBefore: fixedNow.Add(-time.Hour), NotAfter: fixedNow.Add(time.Hour),
+			KeyUsage: kuS, ExtKeyUsage: []gx509.ExtKeyUsage{gx509.ExtKeyUsageClientAuth, gx509.ExtKeyUsageServerAuth}, SignatureAlgorithm: gx509.SM2WithSM3,
+			AuthorityKeyId: victim.AuthorityKeyId, DNSNames: victim.DNSNames}
+		der, e := gx509.CreateCertificate(t, pki.root, &k.PublicKey, k) // issuer name: the real root; signature: the forger's
+		if e != nil {
+			return nil, k
+		}
+		return der, k
+	}
 	expSig := issue("server sign", 101, kuS, []string{tlsServerName}, fixedNow.Add(-48*time.Hour), fixedNow.Add(-24*time.Hour), newSM2Key(r))
 	expEnc := issue("server enc", 102, kuE, []string{tlsServerName}, fixedNow.Add(-48*time.Hour), fixedNow.Add(-24*time.Hour), newSM2Key(r))
 	futSig := issue("server sign", 103, kuS, []string{tlsServerName}, fixedNow.Add(24*time.Hour), fixedNow.Add(48*time.Hour), newSM2Key(r))
@@ -144,6 +177,39 @@ func runC08(c *Ctx) {
 			ids = append(ids, idCase{name: "client-cert-expired/" + authName(a), srvCerts: []gmtls.Certificate{pki.sig, pki.enc}, cliCerts: []gmtls.Certificate{expCli}, auth: a, attacked: "server", suite: su})
 			ids = append(ids, idCase{name: "client-cert-is-a-server-enc-cert-of-other-pki/" + authName(a), srvCerts: []gmtls.Certificate{pki.sig, pki.enc}, cliCerts: []gmtls.Certificate{pki.other.enc}, auth: a, attacked: "server", suite: su})
 		}
+		for _, a := range []gmtls.ClientAuthType{gmtls.VerifyClientCertIfGiven, gmtls.RequireAndVerifyClientCert} {
+			// the forger presents a victim's public certificate first and a same-name forgery for the own key behind it (or the
+			// other way round) and signs CertificateVerify with the own key: no certified key is proven
+			cliEncCert, _ := gx509.ParseCertificate(pki.cliEnc.Certificate[0])
+			if cliEncCert == nil {
+				continue
+			}
+			for vi, victim := range []*gx509.Certificate{cliEncCert, pki.cliSigCert} {
+				vname := []string{"victim-enc-cert", "victim-sign-cert"}[vi]
+				fder, fk := forgeLike(victim, int64(300+vi))
+				if fder == nil {
+					continue
+				}
+				ids = append(ids, idCase{name: "client-" + vname + "-then-same-name-forgery-signed-with-forger-key/" + authName(a), srvCerts: []gmtls.Certificate{pki.sig, pki.enc},
+					cliCerts: []gmtls.Certificate{{Certificate: [][]byte{victim.Raw, fder}, PrivateKey: fk}, pki.cliEnc}, auth: a, attacked: "server", suite: su})
+				ids = append(ids, idCase{name: "client-same-name-forgery-then-" + vname + "-signed-with-forger-key/" + authName(a), srvCerts: []gmtls.Certificate{pki.sig, pki.enc},
+					cliCerts: []gmtls.Certificate{{Certificate: [][]byte{fder, victim.Raw}, PrivateKey: fk}, pki.cliEnc}, auth: a, attacked: "server", suite: su})
+				ids = append(ids, idCase{name: "client-" + vname + "-as-sign-cert-and-forgery-as-enc-cert/" + authName(a), srvCerts: []gmtls.Certificate{pki.sig, pki.enc},
+					cliCerts: []gmtls.Certificate{{Certificate: [][]byte{victim.Raw}, PrivateKey: fk}, {Certificate: [][]byte{fder}, PrivateKey: fk}}, auth: a, attacked: "server", suite: su})
+			}
+			ids = append(ids, idCase{name: "client-cert-expired/no-eku-profile/" + authName(a), srvCerts: []gmtls.Certificate{pki.sig, pki.enc}, cliCerts: []gmtls.Certificate{plainExpCli, plainCliEnc}, auth: a, attacked: "server", suite: su})
+			ids = append(ids, idCase{name: "client-cert-wrong-key/no-eku-profile/" + authName(a), srvCerts: []gmtls.Certificate{pki.sig, pki.enc}, cliCerts: []gmtls.Certificate{wrongKey(plainCliSig), plainCliEnc}, auth: a, attacked: "server", suite: su})
+		}
+		add("no-eku-profile/server-expired-enc-cert", []gmtls.Certificate{plainSig, plainExpEnc}, "client")
+		add("no-eku-profile/server-expired-sign-cert", []gmtls.Certificate{plainExpSig, plainEnc}, "client")
+		add("no-eku-profile/server-not-yet-valid-enc-cert", []gmtls.Certificate{plainSig, plainFutEnc}, "client")
+		add("no-eku-profile/server-wrong-name-enc-cert", []gmtls.Certificate{plainSig, plainNameEnc}, "client")
+		add("no-eku-profile/server-wrong-name-sign-cert", []gmtls.Certificate{plainNameSig, plainEnc}, "client")
+		add("no-eku-profile/server-wrong-encryption-key", []gmtls.Certificate{plainSig, wrongKey(plainEnc)}, "both")
+		add("no-eku-profile/server-wrong-signing-key", []gmtls.Certificate{wrongKey(plainSig), plainEnc}, "client")
+		add("mixed-profile/server-expired-enc-cert(no eku)-next-to-valid-sign-cert(eku)", []gmtls.Certificate{pki.sig, plainExpEnc}, "client")
+		add("mixed-profile/server-not-yet-valid-enc-cert(no eku)-next-to-valid-sign-cert(eku)", []gmtls.Certificate{pki.sig, plainFutEnc}, "client")
+		ids = append(ids, idCase{name: "control/no-eku-profile", srvCerts: []gmtls.Certificate{plainSig, plainEnc}, cliCerts: []gmtls.Certificate{plainCliSig, plainCliEnc}, auth: gmtls.RequireAndVerifyClientCert, attacked: "none", suite: su})
 		ids = append(ids, idCase{name: "client-cert-absent/require-and-verify", srvCerts: []gmtls.Certificate{pki.sig, pki.enc}, auth: gmtls.RequireAndVerifyClientCert, attacked: "server", suite: su})
 		// controls
 		ids = append(ids, idCase{name: "control/genuine", srvCerts: []gmtls.Certificate{pki.sig, pki.enc}, cliCerts: []gmtls.Certificate{pki.cliSig, pki.cliEnc}, auth: gmtls.RequireAndVerifyClientCert, attacked: "none", suite: su})
